@@ -279,6 +279,14 @@ def gen_tmpl():
     need(r"if\s*\(\s*priorityOfRule\s*>\s*priorityOfBestMatched\s*\)", body, "findTemplate: non-quiet '>' test")
     need(r"else\s+if\s*\(\s*priorityOfRule\s*==\s*priorityOfBestMatched\s*\)", body, "findTemplate: non-quiet '==' test")
     need(r"bestMatchedPattern\s*=\s*conflicts\[0\]\s*;", body, "findTemplate: conflicts[0]")
+    need(r"if\s*\(\s*!patterns->empty\(\)\s*&&\s*!\(\s*prevMatchPat\s*!=\s*0\s*&&\s*\(\s*prevPat\s*!=\s*0\s*&&\s*equals\(\s*\*prevPat\s*,\s*\*patterns\s*\)\s*\)\s*&&\s*"
+         r"prevMatchPat->getTemplate\(\)->getPriority\(\)\s*==\s*matchPat->getTemplate\(\)->getPriority\(\)\s*\)\s*\)", body,
+         "findTemplate: non-quiet same-text skip")
+    need(r"priorityOfRule\s*=\s*\(\s*matchScoreNoneValue\s*!=\s*priorityVal\s*\)\s*\?\s*priorityVal\s*:\s*XPath::getMatchScoreValue\(\s*score\s*\)\s*;", body,
+         "findTemplate: non-quiet run-time priority")
+    need(r"prevPat\s*=\s*patterns\s*;\s*prevMatchPat\s*=\s*matchPat\s*;", body, "findTemplate: non-quiet prev update")
+    need(r"addObjectIfNotFound\(\s*bestMatchedPattern\s*,\s*conflicts\s*,\s*nConflicts\s*\)\s*;\s*conflicts\[nConflicts\+\+\]\s*=\s*matchPat\s*;", body,
+         "findTemplate: conflict array update")
 
     body = function_body(st, r"Stylesheet::locateMatchPatternDataList\s*\([^)]*\)\s*const\s*\{", "locateMatchPatternDataList")
     loc = {}
